@@ -114,6 +114,22 @@ def gen_function(c: Contract, prop: str, bounded=None) -> FunctionReport:
         ex.cur_line = node.lineno
         if c.requires is not None:
             st.assume(ex.eval_contract(st, c.requires, dict(st.env)))
+        for ax in c.uses_axioms:
+            anode, aparams = contract_ast(ax.fn)
+            ann = ax.fn.__annotations__
+            formals = {p: fresh(ann[p], "ax_" + p) for p in aparams}
+            sub = State()
+            sub.ghost = dict(st.ghost)
+            sub.heap = st.heap          # the axiom reads the entry heap
+            stmt = truthy(ex.eval_fn_body(sub, ax.fn, anode, formals))
+            ax_body = z3.Implies(z3.And(*sub.pc), stmt) if sub.pc else stmt
+            st.assume(z3.ForAll([f.z for f in formals.values()], ax_body))
+            rep.axioms = getattr(rep, "axioms", []) + [ax.name]
+        dyn = c.hints.get("dynamic_class")
+        if dyn is not None:
+            # a method body runs only for receivers whose class does not override it: facts about the dynamic
+            # class of `self` that follow from that (NOT assumed at call sites)
+            st.assume(ex.eval_contract(st, dyn, dict(st.env)))
         pre_pc = list(st.pc)
         st.old = Namespace(dict(st.env), dict(st.heap))
         # vacuity: the precondition must be satisfiable
